@@ -247,7 +247,7 @@ def mc_only(ctx, c, invariants, properties, name="core-mc-only", timeout=1500):
                      ["INIT Init", "NEXT Next", "CHECK_DEADLOCK FALSE", "INVARIANTS " + " ".join(invariants)] +
                      (["PROPERTIES " + " ".join(properties)] if properties else []),
                      plain=dict(MaxLoggers=c["max_loggers"], InitLevel=c["init_level"], MaxList=c.get("max_list", 2),
-                                MaxArgs=c.get("max_args", 0), MaxSaved=c.get("max_saved", 2), MaxHandlers=c.get("max_handlers", 1), FileBase=41, MaxBulk=c.get("max_bulk", 1), BulkN=1100))
+                                MaxArgs=c.get("max_args", 0), MaxSaved=c.get("max_saved", 2), MaxHandlers=c.get("max_handlers", 1), FileBase=41, MaxBulk=c.get("max_bulk", 1), BulkN=c.get("bulk_n", 1100)))
     return ctx.model_check("MCB", "MCB.cfg", files={"MCB.tla": mc, "MCB.cfg": cfg}, name=name, timeout=timeout)
 
 
@@ -260,7 +260,7 @@ def run_core(ctx, c, invariants, properties, obs, rand_count, rand_depth, rand_l
                       "INVARIANTS " + " ".join(invariants)] +
                      (["PROPERTIES " + " ".join(properties)] if properties else []),
                      plain=dict(MaxLoggers=c["max_loggers"], InitLevel=c["init_level"], MaxList=c.get("max_list", 2),
-                                MaxArgs=c.get("max_args", 0), MaxSaved=c.get("max_saved", 2), MaxHandlers=c.get("max_handlers", 1), FileBase=41, MaxBulk=c.get("max_bulk", 1), BulkN=1100))
+                                MaxArgs=c.get("max_args", 0), MaxSaved=c.get("max_saved", 2), MaxHandlers=c.get("max_handlers", 1), FileBase=41, MaxBulk=c.get("max_bulk", 1), BulkN=c.get("bulk_n", 1100)))
     dot = os.path.join(ctx.scratch, "graph" + tag)
     r = ctx.model_check("MC", "MC.cfg", files={"MC.tla": mc, "MC.cfg": cfg},
                         extra=["-dump", "dot,actionlabels", dot] if dump else [], name="core-mc" + tag)
@@ -293,7 +293,7 @@ def run_core(ctx, c, invariants, properties, obs, rand_count, rand_depth, rand_l
                   handler_opts=[dict(nocolor=bool(x.get("nocolor")), nosource=bool(x.get("nosource")), json=bool(x.get("json")),
                                      level=x.get("level", 0)) for x in rc.get("handler_opts", [])],
                   reg_calls=[dict(v=x["v"], t=x.get("t", -1), e=bool(x.get("e")), clash=bool(x.get("clash")))
-                             for x in rc.get("reg_calls", [])], proc_per=bool(rc.get("reg_calls")),
+                             for x in rc.get("reg_calls", [])], proc_per=bool(rc.get("reg_calls")), bulk_n=rc.get("bulk_n", 1100),
                   ts_layouts=sorted(set(x for x in rc["layouts"] if x) | set(TS_EXPORTED)))
     def execute(behs, n_cov, env, label):
         """3. execute on the real library (in the given process environment), 4. validate with TLC, report."""
@@ -376,7 +376,7 @@ def replay_core(ctx, path, c, obs):
     tp = os.path.join(ctx.scratch, "trace.ndjson")
     ctx.run_worker(["core", sp, tp], testing=True, timeout=600, env=rp.get("env") or None)
     rows = read_ndjson(tp)
-    bad = validate_core_trace(ctx, c, tp, 64)
+    bad = validate_core_trace(ctx, dict(c, bulk_n=script.get("bulk_n", 1100)), tp, 64)
     ctx.traces += 1
     ctx.evaluations += len(rows)
     ctx.nontrivial += len(rows)
@@ -423,7 +423,7 @@ def validate_core_trace(ctx, c, trace_path, max_loggers, name="core-trace", part
     tc["TraceFile"] = "trace.ndjson"
     mct, cfg = gen_mc("MCT", "LoggCoreTrace", tc,
                       ["SPECIFICATION TSpec", "INVARIANTS Done TOneFormat TTreeOK", "CHECK_DEADLOCK FALSE"],
-                      plain=dict(MaxLoggers=max(max_loggers, c["max_loggers"]) + 64, InitLevel=c["init_level"], MaxList=1000, MaxArgs=0, MaxSaved=100000, MaxHandlers=100000, FileBase=41, MaxBulk=100000, BulkN=1100))
+                      plain=dict(MaxLoggers=max(max_loggers, c["max_loggers"]) + 64, InitLevel=c["init_level"], MaxList=1000, MaxArgs=0, MaxSaved=100000, MaxHandlers=100000, FileBase=41, MaxBulk=100000, BulkN=c.get("bulk_n", 1100)))
     with open(trace_path) as fh:
         lines = fh.readlines()
     resets = [i for i, ln in enumerate(lines) if ln.startswith('{"op":"Reset"')]
